@@ -57,6 +57,33 @@ def parse_quoted_then_text(arg):
     return a, arg[i:].strip()
 
 
+def decode_bytes_literal(lit):
+    """lit: the inside of b"..." (source text). Returns list of ints."""
+    out = []
+    i = 0
+    while i < len(lit):
+        c = lit[i]
+        if c == "\\":
+            n = lit[i + 1]
+            if n == "x":
+                out.append(int(lit[i + 2:i + 4], 16)); i += 4
+            elif n == "n":
+                out.append(10); i += 2
+            elif n == "r":
+                out.append(13); i += 2
+            elif n == "t":
+                out.append(9); i += 2
+            elif n == "0":
+                out.append(0); i += 2
+            elif n in "\\\"'":
+                out.append(ord(n)); i += 2
+            else:
+                raise ValueError("unsupported escape in byte string: " + lit)
+        else:
+            out += list(c.encode("utf-8")); i += 1
+    return out
+
+
 def publicise(text, is_item):
     """Rule R10: visibility normalisation (no runtime meaning): items, fields and inherent fns become `pub`."""
     m = mask(text)
@@ -120,6 +147,7 @@ class Group:
         self.trusted = []      # names of assumed items (external_body / assume_specification) collected later
         self.spec_hash = hashlib.sha256()
         self.stub_mode = False
+        self.byte_consts = {}
         self.fn_props = {}
         self.disabled_hints = set(disabled_hints or [])
         self.hint_keys = []
@@ -156,6 +184,32 @@ class Group:
             log.append({"rule": "R1-closure-underscore", "from": mm.group(0)})
             return "|" + ", ".join(out) + "|"
         text = re.sub(r"\|((?:\s*\w+\s*,)*\s*_\s*(?:,\s*\w+\s*)*)\|", r1, text)
+        # rule R16: byte-string literals b"..." become generated constant functions whose contract states their
+        # bytes (Verus does not know the contents of byte-string literals); the bytes are read from the source text
+        while True:
+            m = mask(text)
+            # in the mask a string literal is `"   "` starting at the position of its prefix (b / r / br)
+            pos = -1
+            for qm in re.finditer(r'"', m):
+                k = qm.start()
+                if text[k] == "b" and text[k + 1:k + 2] == '"':
+                    pos = k
+                    break
+            if pos < 0:
+                break
+            class _M:  # minimal match-like object
+                def __init__(self, a): self.a = a
+                def start(self): return self.a
+            mm = _M(pos)
+            q0 = pos + 1
+            q1 = m.index('"', q0 + 1)
+            lit = text[q0 + 1:q1]
+            bs = decode_bytes_literal(lit)
+            name = "vx_bytes_" + hashlib.sha256(lit.encode()).hexdigest()[:10]
+            if name not in self.byte_consts:
+                self.byte_consts[name] = (lit, bs)
+            log.append({"rule": "R16-bytes-literal", "literal": lit})
+            text = text[:mm.start()] + name + "()" + text[q1 + 1:]
         # rule R13: the message arguments of panic!/unimplemented!/unreachable! are dropped (payloads are opaque;
         # reaching the macro stays a proof obligation)
         while True:
@@ -261,6 +315,13 @@ class Group:
             text = self.apply_replace(d, arg, text, "%s::%s" % (relf, ipath), log)
         text = publicise(text, True)
         log.append({"rule": "R10-visibility"})
+        # a byte-string constant becomes an exec const whose contract states its bytes (taken from the source literal)
+        cm = re.match(r"\s*pub const (\w+): &(?:'static )?\[u8\] = (vx_bytes_\w+)\(\);\s*$", text)
+        if cm:
+            lit, bs = self.byte_consts[cm.group(2)]
+            seq = "seq![" + ", ".join("%du8" % b for b in bs) + "]" if bs else "Seq::<u8>::empty()"
+            text = "pub exec const %s: &'static [u8] ensures %s@ == %s { %s() }" % (cm.group(1), cm.group(1), seq, cm.group(2))
+            log.append({"rule": "R16-bytes-const", "name": cm.group(1)})
         for d, arg, dl in subs:
             if d == "attr":
                 self.out.emit(arg, {"kind": "tmpl", "file": tmpl, "line": tline})
@@ -586,6 +647,16 @@ class Group:
 
     # ------------------------------------------------------------------ result
     def finish(self):
+        # generated constant functions of rule R16 go right before the end of the verus! block
+        if self.byte_consts:
+            idx = max(k for k, ln in enumerate(self.out.lines) if ln.strip().startswith("} // verus!"))
+            gen = []
+            for name, (lit, bs) in sorted(self.byte_consts.items()):
+                seq = "seq![" + ", ".join("%du8" % b for b in bs) + "]" if bs else "Seq::<u8>::empty()"
+                gen.append("#[verifier::external_body]")
+                gen.append("pub const fn %s() -> (r: &'static [u8; %d]) ensures r@ == %s { b\"%s\" }" % (name, len(bs), seq, lit))
+            self.out.lines[idx:idx] = gen
+            self.out.map[idx:idx] = [{"kind": "tmpl", "file": "generated:R16", "line": 0}] * len(gen)
         # post-process: VXCLAUSE markers inside bodies become clause lines in the map
         for k, ln in enumerate(self.out.lines):
             mm = re.search(r"/\*VXCLAUSE ([^*]+)\*/", ln)
